@@ -1462,4 +1462,173 @@ theorem parseLines_incNEL (ls : List Line) (P : List Stmt) (h : parseLines ls = 
       · simp only [Except.ok.injEq] at h; subst h; exact hi.1
   · cases h
 
+/-! ## the user's raw jumps are emitted unchanged -/
+
+mutual
+theorem ujInS (lp : Option (Name × Name)) : ∀ (s : SStmt) (i : Nat) (t : Name), t ∈ ujS s →
+    ∃ c, Stmt.jump t c ∈ (lowerS lp s i).1
+  | .expr _ _, i, t, h => by simp [ujS] at h
+  | .ret _, i, t, h => by simp [ujS] at h
+  | .label _, i, t, h => by simp [ujS] at h
+  | .jump l c, i, t, h => by simp [ujS] at h; exact ⟨c, by simp [lowerS, h]⟩
+  | .include _, i, t, h => by simp [ujS] at h
+  | .brk, i, t, h => by simp [ujS] at h
+  | .cont, i, t, h => by simp [ujS] at h
+  | .func _ _ _ _ _ _, i, t, h => by simp [ujS] at h
+  | .ite c t' e, i, t, h => by
+      simp only [ujS, List.mem_append] at h
+      rw [lowerS_ite]
+      rcases h with h | h
+      · obtain ⟨c', hc⟩ := ujInB lp t' (i+1) t h
+        exact ⟨c', by simp [hc]⟩
+      · obtain ⟨c', hc⟩ := ujInE lp (lIf i) (lDone i) e (cntB t' (i+1)) t h
+        exact ⟨c', by simp [hc]⟩
+  | .while c b, i, t, h => by
+      simp only [ujS] at h
+      rw [lowerS_while]
+      obtain ⟨c', hc⟩ := ujInB (some (lDone i, lLoop i)) b (i+1) t h
+      exact ⟨c', by simp [hc]⟩
+  | .for v ix vals b, i, t, h => by
+      simp only [ujS] at h
+      rw [lowerS_for]
+      obtain ⟨c', hc⟩ := ujInB (some (lDone i, lCont i)) b (i+1) t h
+      exact ⟨c', by simp [hc]⟩
+theorem ujInB (lp : Option (Name × Name)) : ∀ (B : List SStmt) (i : Nat) (t : Name), t ∈ ujB B →
+    ∃ c, Stmt.jump t c ∈ (lowerB lp B i).1
+  | [], i, t, h => by simp [ujB] at h
+  | s :: ss, i, t, h => by
+      simp only [ujB, List.mem_append] at h
+      rw [lowerB_cons]
+      rcases h with h | h
+      · obtain ⟨c', hc⟩ := ujInS lp s i t h
+        exact ⟨c', by simp [hc]⟩
+      · obtain ⟨c', hc⟩ := ujInB lp ss (cntS s i) t h
+        exact ⟨c', by simp [hc]⟩
+theorem ujInE (lp : Option (Name × Name)) (cur done : Name) : ∀ (e : SElse) (i : Nat) (t : Name), t ∈ ujE e →
+    ∃ c, Stmt.jump t c ∈ (lowerElse lp cur done e i).1
+  | .none, i, t, h => by simp [ujE] at h
+  | .els b, i, t, h => by
+      simp only [ujE] at h
+      rw [lowerElse_els]
+      obtain ⟨c', hc⟩ := ujInB lp b i t h
+      exact ⟨c', by simp [hc]⟩
+  | .elif c t' e, i, t, h => by
+      simp only [ujE, List.mem_append] at h
+      rw [lowerElse_elif]
+      rcases h with h | h
+      · obtain ⟨c', hc⟩ := ujInB lp t' (i+1) t h
+        exact ⟨c', by simp [hc]⟩
+      · obtain ⟨c', hc⟩ := ujInE lp (lIf i) done e (cntB t' (i+1)) t h
+        exact ⟨c', by simp [hc]⟩
+end
+
+/-- the user's raw labels are emitted unchanged (under `NoReserved`) -/
+theorem ulInB (lp : Option (Name × Name)) (B : List SStmt) (i : Nat) (hn : noResB B = true) (l : Name) (h : l ∈ ulB B) :
+    Stmt.label l ∈ (lowerB lp B i).1 := by
+  rw [← usrB lp B i hn] at h
+  exact (mem_userLabels.1 h).1
+
+/-! ## programs without raw `label` / `jump` statements -/
+
+mutual
+def noRawS : SStmt → Bool
+  | .label _ => false
+  | .jump _ _ => false
+  | .ite _ t e => noRawB t && noRawE e
+  | .while _ b => noRawB b
+  | .for _ _ _ b => noRawB b
+  | .func _ _ _ _ _ b => noRawB b
+  | _ => true
+def noRawB : List SStmt → Bool
+  | [] => true
+  | s :: ss => noRawS s && noRawB ss
+def noRawE : SElse → Bool
+  | .none => true
+  | .els b => noRawB b
+  | .elif _ t e => noRawB t && noRawE e
+end
+
+mutual
+theorem noRawS_spec : ∀ (s : SStmt), noRawS s = true →
+    ulS s = [] ∧ ujS s = [] ∧ noResS s = true ∧ ∀ b ∈ fbS s, noRawB b = true
+  | .expr _ _, _ => by simp [ulS, ujS, noResS, fbS]
+  | .ret _, _ => by simp [ulS, ujS, noResS, fbS]
+  | .label _, h => by simp [noRawS] at h
+  | .jump _ _, h => by simp [noRawS] at h
+  | .include _, _ => by simp [ulS, ujS, noResS, fbS]
+  | .brk, _ => by simp [ulS, ujS, noResS, fbS]
+  | .cont, _ => by simp [ulS, ujS, noResS, fbS]
+  | .func _ _ _ _ _ b, h => by
+      simp only [noRawS] at h
+      obtain ⟨-, -, h3, h4⟩ := noRawB_spec b h
+      refine ⟨by simp [ulS], by simp [ujS], by simpa [noResS] using h3, ?_⟩
+      intro x hx
+      simp only [fbS, List.mem_cons] at hx
+      rcases hx with hx | hx
+      · rw [hx]; exact h
+      · exact h4 x hx
+  | .ite c t e, h => by
+      simp only [noRawS, Bool.and_eq_true] at h
+      obtain ⟨a1, a2, a3, a4⟩ := noRawB_spec t h.1
+      obtain ⟨b1, b2, b3, b4⟩ := noRawE_spec e h.2
+      refine ⟨by simp [ulS, a1, b1], by simp [ujS, a2, b2], by simp [noResS, a3, b3], ?_⟩
+      intro x hx
+      simp only [fbS, List.mem_append] at hx
+      exact hx.elim (a4 x) (b4 x)
+  | .while c b, h => by
+      simp only [noRawS] at h
+      obtain ⟨a1, a2, a3, a4⟩ := noRawB_spec b h
+      exact ⟨by simp [ulS, a1], by simp [ujS, a2], by simp [noResS, a3], by simpa [fbS] using a4⟩
+  | .for v ix vals b, h => by
+      simp only [noRawS] at h
+      obtain ⟨a1, a2, a3, a4⟩ := noRawB_spec b h
+      exact ⟨by simp [ulS, a1], by simp [ujS, a2], by simp [noResS, a3], by simpa [fbS] using a4⟩
+theorem noRawB_spec : ∀ (B : List SStmt), noRawB B = true →
+    ulB B = [] ∧ ujB B = [] ∧ noResB B = true ∧ ∀ b ∈ fbB B, noRawB b = true
+  | [], _ => by simp [ulB, ujB, noResB, fbB]
+  | s :: ss, h => by
+      simp only [noRawB, Bool.and_eq_true] at h
+      obtain ⟨a1, a2, a3, a4⟩ := noRawS_spec s h.1
+      obtain ⟨b1, b2, b3, b4⟩ := noRawB_spec ss h.2
+      refine ⟨by simp [ulB, a1, b1], by simp [ujB, a2, b2], by simp [noResB, a3, b3], ?_⟩
+      intro x hx
+      simp only [fbB, List.mem_append] at hx
+      exact hx.elim (a4 x) (b4 x)
+theorem noRawE_spec : ∀ (e : SElse), noRawE e = true →
+    ulE e = [] ∧ ujE e = [] ∧ noResE e = true ∧ ∀ b ∈ fbE e, noRawB b = true
+  | .none, _ => by simp [ulE, ujE, noResE, fbE]
+  | .els b, h => by
+      simp only [noRawE] at h
+      obtain ⟨a1, a2, a3, a4⟩ := noRawB_spec b h
+      exact ⟨by simp [ulE, a1], by simp [ujE, a2], by simp [noResE, a3], by simpa [fbE] using a4⟩
+  | .elif c t e, h => by
+      simp only [noRawE, Bool.and_eq_true] at h
+      obtain ⟨a1, a2, a3, a4⟩ := noRawB_spec t h.1
+      obtain ⟨b1, b2, b3, b4⟩ := noRawE_spec e h.2
+      refine ⟨by simp [ulE, a1, b1], by simp [ujE, a2, b2], by simp [noResE, a3, b3], ?_⟩
+      intro x hx
+      simp only [fbE, List.mem_append] at hx
+      exact hx.elim (a4 x) (b4 x)
+end
+
+/-! ## the machine's label search -/
+
+theorem findLabel_of_mem {P : List Stmt} {l : Name} (h : Stmt.label l ∈ P) : ∃ n, Machine.findLabel P l = some n := by
+  unfold Machine.findLabel
+  have : P.findIdx (Machine.isLabel l) < P.length :=
+    List.findIdx_lt_length_of_exists ⟨_, h, by simp [Machine.isLabel]⟩
+  exact ⟨P.findIdx (Machine.isLabel l), by simp [this]⟩
+
+theorem mem_of_findLabel {P : List Stmt} {l : Name} {n : Nat} (h : Machine.findLabel P l = some n) : Stmt.label l ∈ P := by
+  unfold Machine.findLabel at h
+  simp only at h
+  split at h
+  · rename_i hlt
+    have := List.findIdx_getElem (w := hlt)
+    have hm := List.getElem_mem hlt
+    generalize P[List.findIdx (Machine.isLabel l) P] = s at this hm
+    cases s <;> simp [Machine.isLabel] at this
+    subst this; exact hm
+  · cases h
+
 end C07
